@@ -448,6 +448,25 @@ theorem C15_executor_no_state_but_setup {V : Type} [PyVal V] (w : World V) (o : 
     (h : w.inst.dag.isSetup n = false) : (xRun w o args).1.inst.res n = w.inst.res n :=
   VM.xRun_inst_nonsetup w o args n h
 
+/-- C11 with executor objects that are built at one moment and called at a later one (or several times), with
+    any calls, `setup()` invocations and other executor runs in between: the world history amounts to the plain
+    history `flatten` (a kept executor's run is the operation `call sel args` on the instance AS IT IS WHEN THE
+    OBJECT IS CALLED, a used object's call is nothing), and no setup node is entered twice. -/
+theorem C11_kept_executors {V : Type} [PyVal V] (ops : List (WOp V)) (st : WState V) (hp : AllPlain st.xs)
+    (hops : ∀ o ∈ ops, o.plainMk) (hok : InstOK st.w.inst) (hwf : ∀ (j : Inst V) (op : Op V), WF (opCfg j op))
+    (hall : AllSucceed st.w.inst (flatten st ops)) :
+    (setupEntries st.w.inst (flatten st ops)).Nodup ∧
+      (wRun st ops).w.inst = runHistory st.w.inst (flatten st ops) :=
+  VM.C11_kept_executors ops st hp hops hok hwf hall
+
+/-- C11: a kept executor starts from the setup values the instance holds when it RUNS: a value recorded between
+    its construction and its call is not recomputed and is not replaced. -/
+theorem C11_kept_executor_sees_current_setup {V : Type} [PyVal V] (w : World V) (o : XObj) (args : List V)
+    (hp : o.spec.plain) (hu : o.used = false) (hok : InstOK w.inst) (n : TM.Node)
+    (hs : w.inst.dag.isSetup n = true) (v : V) (hv : w.inst.res n = some v) :
+    n ∉ entered (opCfg w.inst (.call o.spec.sel args)) ∧ (xRun w o args).1.inst.res n = some v :=
+  VM.kept_executor_sees_current_setup w o args hp hu hok n hs v hv
+
 /-- C18, end to end through an explicit file store: a successful run with `cache_in = p` (any selection,
     any `cache_deps_of` targets `nonCache`), then a fresh executor of the same selection with
     `from_cache = p`, called with the same arguments or with fewer (the omitted ones being in the file):
